@@ -54,6 +54,8 @@ func canonErr(err error) string {
 		return "trap:sig"
 	case errors.Is(err, wasmruntime.ErrRuntimeUnreachable):
 		return "trap:unreachable"
+	case errors.Is(err, wasmruntime.ErrRuntimeExpectedSharedMemory):
+		return "trap:unshared"
 	case errors.As(err, &ee):
 		return fmt.Sprintf("exit:%d", ee.ExitCode())
 	}
